@@ -20,7 +20,13 @@ func (c *Calcium) SendLargeFile(ctx context.Context, inputChan chan *types.SendL
 		senders := make(map[string]*workloadSender)
 		// for each file
 		for data := range inputChan {
+			// a workload named twice must still receive every chunk once
+			sent := map[string]struct{}{}
 			for _, id := range data.IDs {
+				if _, dup := sent[id]; dup {
+					continue
+				}
+				sent[id] = struct{}{}
 				if _, ok := senders[id]; !ok {
 					log.Debugf(ctx, "[SendLargeFile] create sender for %s", id)
 					// for each container, let's create a new sender to send identical file chunk, each chunk will include the metadata of this file
